@@ -729,7 +729,8 @@ EXPECTED = {'isR': {'hard': {'defaults': {'tol': 100}, 'formula': ['and', ['Lt',
                                                  ['ite', ['call', 'isinstance', []],
                                                   ['or', ['Eq', 'expr', 'const:0'],
                                                    ['ite', ['call', 'isinstance', []], ['ite', ['call', 'any', []], ['raise'], ['const', 'True']],
-                                                    ['or', ['Eq', 'expr', 'expr'],
+                                                    ['ite', ['Eq', 'expr', 'expr'],
+                                                     ['ite', ['not', ['call', 'all', []]], ['raise'], ['const', 'True']],
                                                      ['and', ['call', 'argcheck.isnumberlist', []], ['Eq', 'expr', 'const:1'],
                                                       ['Eq', 'expr', 'expr']]]]],
                                                   ['or', ['and', ['call', 'isinstance', []], ['Eq', 'expr', 'expr']], ['In', 'expr', 'expr']]]]],
@@ -741,7 +742,8 @@ EXPECTED = {'isR': {'hard': {'defaults': {'tol': 100}, 'formula': ['and', ['Lt',
                                        ['ite', ['src', 'isinstance(arg[0], np.ndarray)'],
                                         ['ite', ['src', 'any((_l0 is None for _l0 in [self._import(_l0, check=check) for _l0 in arg]))'], ['raise'],
                                          ['const', 'True']],
-                                        ['or', ['src', 'type(arg[0]) == type(self)'],
+                                        ['ite', ['src', 'type(arg[0]) == type(self)'],
+                                         ['ite', ['not', ['src', 'all((len(_l0) == 1 for _l0 in arg))']], ['raise'], ['const', 'True']],
                                          ['and', ['src', 'argcheck.isnumberlist(arg)'], ['src', 'len(self.shape) == 1'],
                                           ['src', 'len(arg) == self.shape[0]']]]]],
                                       ['or', ['and', ['src', 'isinstance(arg, self.__class__)'], ['src', 'arg.shape == self.shape']],
@@ -751,7 +753,7 @@ EXPECTED = {'isR': {'hard': {'defaults': {'tol': 100}, 'formula': ['and', ['Lt',
                                          [['if',
                                            [['if', ['Assign'],
                                              [['if', ['Assign', ['if', ['raise'], []], 'Assign'],
-                                               [['if', ['Assert', 'Assign'], [['if', ['Assign'], ['return']]]]]]]]],
+                                               [['if', ['Assert', ['if', ['raise'], []], 'Assign'], [['if', ['Assign'], ['return']]]]]]]]],
                                            [['if', ['Assign'], [['if', ['Try', 'Assign'], ['return']]]]]]]]]],
                                       'return']},
  'SMUserList.__setitem__': {'hard': {'defaults': {},
@@ -1450,7 +1452,46 @@ def table_objects(ctx):
             ctx.count('oracle:ctor-obj')
             if summ[0] == 0 and not all(summ[1]):
                 ctx.fail(obj_key(r, o, n), f"{OCLS[r].__name__}({OCLS[o].__name__} object of length {n}) holds a value outside its group: {cell['observed']}", cell)
-    ctx.corr['functions'] += 2
+    # ---- constructor given a LIST of objects
+    import itertools
+    related = {'oSO2': ['oSE2', 'oSO3'], 'oSE2': ['oSO2', 'oSE3'], 'oSO3': ['oSE3', 'oSO2'], 'oSE3': ['oSO3', 'oTw3'], 'oUQ': ['oQ', 'oSO3'],
+               'oTw2': ['oTw3', 'oSE2'], 'oTw3': ['oTw2', 'oSE3']}
+    lc = []
+    for r in RECV:
+        ops = [(r, 1), (r, 0), (r, 2)] + [(o, 1) for o in related[r]]
+        for k in (1, 2, 3):
+            for combo in itertools.product(ops, repeat=k):
+                if k == 3 and sum(1 for c_ in combo if c_ != (r, 1)) != 1:
+                    continue          # 3-lists: exactly one element that is not a singleton of the class, at every position
+                lc.append((r, list(combo)))
+    ctx.stats['table:object-list-cells'] = len(lc)
+    modelled = [(r, l) for r, l in lc if l[0][0] == r]
+    lvals = [parse_bits(v) for v in ctx.coq_eval(COQ_HDR, ["objs_summary %s [%s]" % (r, "; ".join(f"Opd {o} {n}" for o, n in l)) for r, l in modelled],
+                                                 name='objs', chunk=800)]
+    mv = {(r, tuple(l)): v for (r, l), v in zip(modelled, lvals)}
+    for r, l in lc:
+        for form in (list, tuple):
+            arg = form(mk_obj(rng, o, n) for o, n in l)
+            cell = {'class': OCLS[r].__name__, 'form': form.__name__, 'elements': [[OCLS[o].__name__, n] for o, n in l]}
+            try:
+                obj = OCLS[r](arg)
+                summ = (0, elements_bits(r, obj.data))
+                cell['observed'] = [('member' if b else 'NON-MEMBER: ' + repr(np.shape(e) if isinstance(e, np.ndarray) else type(e).__name__)) for b, e in zip(summ[1], obj.data)]
+            except Exception as ex:  # noqa
+                summ = (EXC_CODE.get(type(ex).__name__, 99), [])
+                cell['observed'] = type(ex).__name__
+            ctx.corr['cases'] += 1
+            ctx.case(('objs', r, tuple(l), form.__name__))
+            model = mv.get((r, tuple(l)))
+            if model is not None and summ != model:
+                ctx.corr['disagreements'] += 1
+                ctx.fail(f"corr:ctor-objs:{OCLS[r].__name__}", f"list-of-objects constructor model and implementation disagree on {cell}: model {model} implementation {summ}", cell)
+            ctx.count('oracle:ctor-objs')
+            if summ[0] == 0 and (not all(summ[1]) or any((o != r and not (r == 'oUQ' and o in ('oSO3', 'oSE3'))) for o, n in l)):
+                # an object came back: every element must be a member, and no element of another class may have been taken
+                # (UnitQuaternion([SO3 / SE3 objects]) is a documented conversion)
+                ctx.fail(f"ctor:object-list:{OCLS[r].__name__}:holds-nonmember-or-foreign", f"{OCLS[r].__name__}({cell['elements']}) returned an object: {cell['observed']}", cell)
+    ctx.corr['functions'] += 3
 
 
 def run(ctx):
